@@ -648,6 +648,12 @@ def gen(rng, tier):
         for v in ([], [1], [1, 1], [1, 2], ["a", 1], [1, 2, 3], ["a"], [[1], [1]]):
             sc, val = wrap(dict({"type": "array", "uniqueItems": True}, **other), v, {})
             cases.append(mk(sc, val))
+    # definition names that are not plain words (a '+' must stay a '+': the reference is a URI fragment, not a query string)
+    for nm in ("opt+in", "a.b", "a-b", "x_y", "\u00e9t\u00e9", "1", "A+B+C", "plus+", "+"):
+        for dsch, vals in (({"type": "string", "maxLength": 3}, ["abc", "toolong", 1]), ({"enum": ["yes", "no"]}, ["yes", "maybe"])):
+            for v in vals:
+                sc, val = wrap({"$ref": "#/$defs/" + nm}, v, {nm: dsch})
+                cases.append(mk(sc, val))
     # numeric keywords in COMBINATION: multipleOf with each kind of bound, both sides of the bound, quotient on the other
     # side of the bound than the value (an in-place division would show)
     nb = rng.fork("numcombo")
